@@ -1295,6 +1295,8 @@ func checkRejections(out *simkit.Outcome, sc *pw.Scenario, res []*result, t *tre
 			// a failure before the link is reached (unreadable file etc.) would be legitimate,
 			// but generated trees have none for the running uid
 			out.Violate("C12", "pack-policy-error-kind", "not-illegal-slug", fmt.Sprintf("run %d: out-of-tree link(s) %v refused with a non-illegal-slug error: %v", i, bad, r.err))
+			// (C05 names the error too: without dereferencing Pack fails with an illegal-slug error)
+			out.Violate("C05", "pack-policy-error-kind", "not-illegal-slug", fmt.Sprintf("run %d: out-of-tree link(s) %v refused with a non-illegal-slug error: %v", i, bad, r.err))
 		} else if r.meta != nil {
 			out.Violate("C05", "out-link-meta", "meta", fmt.Sprintf("run %d: Pack refused an out-of-tree link but returned Meta", i))
 		}
